@@ -45,6 +45,15 @@ def realize(cc, value, node=None):
         return cc.DigestValue.create(value.secret, alg, salt=salt)
     if isinstance(value, Opaque):
         return object()
+    import collections
+    import types
+
+    if isinstance(value, types.MappingProxyType):
+        return types.MappingProxyType({k: realize(cc, v) for k, v in value.items()})
+    if isinstance(value, collections.UserDict):
+        return collections.UserDict({k: realize(cc, v) for k, v in value.items()})
+    if isinstance(value, collections.ChainMap):
+        return collections.ChainMap({k: realize(cc, v) for k, v in value.items()})
     if isinstance(value, list):
         return [realize(cc, v) for v in value]
     if isinstance(value, tuple):
@@ -176,12 +185,26 @@ def make_field(cc, node, built, path):
 def _field_validator(built, path, vspec):
     """vspec: 'pass' | 'fail' | 'boom' (raises a non-ValueError)"""
 
-    def validator(cfg, value, path=path, vspec=vspec):
+    only = None
+    if isinstance(vspec, str) and "@" in vspec:
+        vspec, only = vspec.split("@", 1)  # "fail-empty@424242": reject only the value whose text is 424242
+
+    def validator(cfg, value, path=path, vspec=vspec, only=only):
         built.log.append(("fv", path, id(cfg), vspec))
+        if only is not None and str(value) != only:
+            return value
         if vspec == "fail":
             raise ValueError("field validator of %s says no" % path)
         if vspec == "boom":
             raise KeyError("field validator of %s exploded" % path)
+        if vspec == "fail-empty":
+            raise ValueError()  # no message at all
+        if vspec == "assert-empty":
+            assert value is Ellipsis
+        if vspec == "keyerror-empty":
+            raise KeyError()
+        if vspec == "multiline":
+            raise ValueError("first line of the explanation\nsecond line")
         if vspec == "maxlen2" and hasattr(value, "__len__") and len(value) > 2:
             raise ValueError("field validator of %s: at most 2 entries" % path)
         return value
